@@ -215,7 +215,7 @@ fn c03_q_v2b_keepraw_u32() {
 #[kani::unwind(3)]
 #[kani::stub(std::fmt::format, crate::stubs::fmt_format_stub)]
 #[kani::stub(pallas_codec::minicbor::encode::Error::write, crate::stubs::mcb_write_err_stub)]
-fn c03_q_v2b_zero_or_one() {
+fn c03_t_v2b_zero_or_one() {
     let mut src: [u8; 6] = kani::any();
     let one: bool = kani::any();
     src[0] = if one { 0x81 } else { 0x80 };
@@ -508,6 +508,31 @@ fn c03_q_keepraw_mutation_parts() {
     kani::assume(i < m);
     assert!(out[i] == want[i], "re-encoding is the encoding of the new inner value");
     kani::cover!(m == 5, "two 2-byte items");
+    core::mem::forget(kr);
+}
+
+/// mutation lemma after `to_owned()`: the wrapper owns its raw bytes (a non-empty owned buffer) and must still
+/// re-encode from the new inner value once it has been mutated
+/// bound: raw = 3 symbolic bytes (hook), inner (u8,u8) symbolic, new value symbolic; unwind 5
+#[kani::proof]
+#[kani::unwind(5)]
+#[kani::stub(std::fmt::format, crate::stubs::fmt_format_stub)]
+#[kani::stub(pallas_codec::minicbor::encode::Error::write, crate::stubs::mcb_write_err_stub)]
+fn c03_q_keepraw_mutation_owned() {
+    let raw: [u8; 3] = kani::any();
+    let inner: (u8, u8) = kani::any();
+    let y: (u8, u8) = kani::any();
+    let mut kr: KeepRaw<'static, (u8, u8)> = KeepRaw::verif_from_parts(&raw[..], inner).to_owned();
+    assert!(kr.raw_cbor().len() == 3, "to_owned keeps the raw bytes");
+    *kr.deref_mut() = y;
+    assert!(kr.raw_cbor().is_empty(), "raw is invalidated by mutation (owned buffer)");
+    let (out, m) = enc(&kr);
+    let (want, w) = enc(&y);
+    assert!(m == w, "re-encoding is the encoding of the new inner value (length)");
+    let i: usize = kani::any();
+    kani::assume(i < m);
+    assert!(out[i] == want[i], "re-encoding is the encoding of the new inner value");
+    kani::cover!(m == 3, "one immediate and one 2-byte item");
     core::mem::forget(kr);
 }
 
